@@ -293,6 +293,10 @@ def m_lookups(ctx, case):
                     rows["nic_v1"].append((r[1][0], r[1][1]))
                     bytc["nic_v1"].setdefault(tc, set()).add((r[1][0], r[1][1]))
                     seen[("nic_v1", tc, s)] = (r[1][0], r[1][1])
+                    rb = call(adsb.nic_v1, hx, bool(s))
+                    ctx.ev()
+                    if rb != r:
+                        ctx.violation("lookup-differs-for-bool-supplement", api="nic_v1", frame=hx, tc=tc, nics=s, with_int=r[1:], with_bool=rb[1:])
                 for b in (0, 1):
                     r = call(adsb.nic_v2, hx, s, b)
                     ctx.ev()
@@ -302,6 +306,13 @@ def m_lookups(ctx, case):
                         rows["nic_v2"].append((r[1][0], r[1][1]))
                         bytc["nic_v2"].setdefault(tc, set()).add((r[1][0], r[1][1]))
                         seen[("nic_v2", tc, s * 2 + b)] = (r[1][0], r[1][1])
+                        # the supplement bits as bool (they are flags; bool is an int): same answer
+                        rb = call(adsb.nic_v2, hx, bool(s), bool(b))
+                        ctx.ev()
+                        if rb != r:
+                            ctx.violation("lookup-differs-for-bool-supplement", api="nic_v2", frame=hx, tc=tc, nica=s, nicbc=b,
+                                          with_int=r[1:], with_bool=rb[1:])
+                        ctx.hit("bool_supplements")
             if 9 <= tc <= 18:
                 r = call(adsb.nic_b, hx)
                 ctx.ev()
